@@ -129,7 +129,9 @@ func main() {
 	}
 	conn.WriteTimeout = 2 * time.Second
 	var seqCtr int32
-	conn.NextSequence = func() int32 { return atomic.AddInt32(&seqCtr, 1) }
+	if scenario == "normal" || scenario == "kafail" {
+		conn.NextSequence = func() int32 { return atomic.AddInt32(&seqCtr, 1) }
+	} // the other scenarios keep the allocator NewConn installs, as the README usage does
 	var wg sync.WaitGroup
 	wg.Add(1)
 	go func() { defer wg.Done(); conn.Watch() }()
